@@ -259,25 +259,30 @@ InDomain(req, rep) ==
   /\ req.range_p => ~(req.im_p \/ req.inm_p \/ req.ims_p)       \* Range is combined with If-Range only
   /\ req.ifr_p => ~(req.im_p \/ req.inm_p \/ req.ims_p)
 
-Full200(req, rep, obs) ==
+\* d = [data: the resource bytes, hb: the recorded body is to be compared]; the drivers' resources are
+\* DataSlice(0, length) and every non-HEAD body is compared (Std); recorded repository tests bring their own bytes.
+Std(req, rep) == [data |-> DataSlice(0, rep.length), hb |-> req.method # "HEAD"]
+Full200D(req, rep, obs, d) ==
   IF obs.cr_n # 0 THEN "FullOn200/ContentRange"
-  ELSE IF req.method # "HEAD" /\ obs.body # DataSlice(0, rep.length) THEN "FullOn200/Body"
+  ELSE IF d.hb /\ obs.body # d.data THEN "FullOn200/Body"
   ELSE IF obs.cl_n > 1 \/ (obs.cl_n = 1 /\ ~(AllDigits(obs.cl) /\ NatVal(obs.cl) = rep.length)) THEN "FullOn200/ContentLength"
   ELSE "ok"
 
-Partial206(req, rep, obs, rc) ==
+Full200(req, rep, obs) == Full200D(req, rep, obs, Std(req, rep))
+
+Partial206D(req, rep, obs, rc, d) ==
   LET cr == ParseContentRange(obs.cr) IN
   IF obs.cr_n # 1 \/ ~cr.ok THEN "RangeBodyMatchesHeader/ContentRange"
   ELSE IF ~(cr.a <= cr.b /\ cr.b < rep.length /\ cr.n = rep.length) THEN "RangeInsideResource"
   ELSE IF ~(rc.iv[1] <= cr.a /\ cr.b + 1 <= rc.iv[2]) THEN "RangeInsideRequest"
   ELSE IF obs.cl_n # 1 \/ ~AllDigits(obs.cl) \/ NatVal(obs.cl) # cr.b + 1 - cr.a THEN "RangeBodyMatchesHeader/ContentLength"
-  ELSE IF req.method # "HEAD" /\ obs.body # DataSlice(cr.a, cr.b + 1) THEN "RangeBodyMatchesHeader/Body"
+  ELSE IF d.hb /\ obs.body # Sub(d.data, cr.a + 1, cr.b + 1) THEN "RangeBodyMatchesHeader/Body"
   ELSE "ok"
 
-Verdict(req, rep, obs) ==
+VerdictD(req, rep, obs, d) ==
   IF obs.exc # "" /\ obs.status # 416 THEN "Raised"
   ELSE IF ~(req.method \in {"GET", "HEAD"}) THEN
-       (IF obs.status # 200 THEN "FullOn200/IgnoredMethod" ELSE Full200(req, rep, obs))
+       (IF obs.status # 200 THEN "FullOn200/IgnoredMethod" ELSE Full200D(req, rep, obs, d))
   ELSE
   LET ifr == IF req.ifr_p /\ req.range_p THEN IfRange(req, rep) ELSE "pass"
       rc == RangeClass(req, rep) IN
@@ -285,15 +290,16 @@ Verdict(req, rep, obs) ==
   ELSE IF Must304(req, rep) THEN "Complete304"
   ELSE IF obs.status = 412 THEN (IF May412(req, rep) THEN "ok" ELSE "Sound412")
   ELSE IF obs.status = 200 THEN
-       (IF ifr = "pass" /\ rc.c = "r416" THEN "Is416" ELSE Full200(req, rep, obs))
+       (IF ifr = "pass" /\ rc.c = "r416" THEN "Is416" ELSE Full200D(req, rep, obs, d))
   ELSE IF obs.status = 416 THEN
        (IF ifr = "fail" \/ rc.c = "none" THEN "FullOn200/Ignored"
         ELSE IF rc.c \in {"r416", "any"} \/ rc.lenient THEN "ok" ELSE "Only416")
   ELSE IF obs.status = 206 THEN
        (IF ifr = "fail" \/ rc.c = "none" THEN "FullOn200/Ignored"
         ELSE IF rc.c # "sat" THEN "Is416"
-        ELSE Partial206(req, rep, obs, rc))
+        ELSE Partial206D(req, rep, obs, rc, d))
   ELSE "UnexpectedStatus"
+Verdict(req, rep, obs) == VerdictD(req, rep, obs, Std(req, rep))
 
 \* ------------------------------------------------------------------ Range combined with validators
 \* RFC 7233 3.1: Range is evaluated after the preconditions of RFC 7232 and only if the result without it
@@ -307,13 +313,14 @@ InDomainRC(req, rep) ==
   /\ req.im_p => rep.etag_p
   /\ req.range_p /\ (req.im_p \/ req.inm_p \/ req.ims_p) /\ ~req.ifr_p
 NoValidators(req) == [req EXCEPT !.inm_p = FALSE, !.im_p = FALSE, !.ims_p = FALSE]
-VerdictRC(req, rep, obs) ==
+VerdictRCD(req, rep, obs, d) ==
   IF obs.exc # "" /\ obs.status # 416 THEN "Raised"
-  ELSE IF ~(req.method \in {"GET", "HEAD"}) THEN Verdict(NoValidators(req), rep, obs)
+  ELSE IF ~(req.method \in {"GET", "HEAD"}) THEN VerdictD(NoValidators(req), rep, obs, d)
   ELSE IF obs.status = 304 THEN (IF May304(req, rep) THEN "ok" ELSE "Sound304")
   ELSE IF Must304(req, rep) THEN "Complete304"
   ELSE IF obs.status = 412 THEN (IF May412(req, rep) THEN "ok" ELSE "Sound412")
-  ELSE Verdict(NoValidators(req), rep, obs)
+  ELSE VerdictD(NoValidators(req), rep, obs, d)
+VerdictRC(req, rep, obs) == VerdictRCD(req, rep, obs, Std(req, rep))
 
 \* the plain function is_resource_modified (no If-Range processing): "not modified" is the 304 / 412 signal
 VerdictIRM(req, rep, modified) ==
